@@ -290,7 +290,7 @@ def _and_all(xs):
     return acc
 
 
-def ffsp_job(job_id, NJ=2, NS=2, NMA=1, D=2, flatten=True, source_filter=None):
+def ffsp_job(job_id, NJ=2, NS=2, NMA=1, D=2, flatten=True, big=None, source_filter=None):
     E = explore.EXP
     ctx = core.Ctx(job_id)
     w = world.make_world(source_filter=source_filter)
@@ -298,14 +298,15 @@ def ffsp_job(job_id, NJ=2, NS=2, NMA=1, D=2, flatten=True, source_filter=None):
     gen = types.SimpleNamespace(num_stage=NS, num_machine=NMA, num_job=NJ, num_machine_total=NS * NMA, flatten_stages=flatten)
     env = mod.FFSPEnv(generator=gen)
     NM = NS * NMA
-    ctx.bounds = {"env": "ffsp", "jobs": NJ, "stages": NS, "machines_per_stage": NMA, "durations": f"symbolic ints in [1,{D}]"}
+    ctx.bounds = {"env": "ffsp", "jobs": NJ, "stages": NS, "machines_per_stage": NMA, "durations": f"symbolic ints in [1,{D}]" + (f" or {big}" if big else "")}
     ctx.assumptions.add("FFSP durations are integers in [1,D]: its time-stepped loop forks once per value, so inside this bound the solver decides per concrete duration vector")
-    bound = 4 * NJ * NS * (D + 1)
+    bound = 4 * NJ * NS * ((big or D) + 1)
 
     def harness():
         rt = T.sym_tensor("d", (1, NJ, NM), T.int64)
         for x in rt.a.reshape(-1):
-            E.assume(z3.And(x >= 1, x <= D))
+            # `big`: one additional, much longer duration (heterogeneous machines: a job may be far slower on a machine it ends up not using)
+            E.assume(z3.And(x >= 1, x <= D) if big is None else z3.Or(z3.And(x >= 1, x <= D), x == big))
         td = env.reset(TensorDict({"run_time": rt}, batch_size=[1]))
         steps = 0
         trace = []
